@@ -41,3 +41,15 @@ pub struct AltState {
     #[instruction_step_limit]
     pub steps: usize,
 }
+
+/// A third state type: the smallest struct the builder feature accepts - the exec stack and one
+/// value stack, NO input-instruction map and NO step-limit field (both are optional for the macro,
+/// and the generated builder then has no step-limit type-state and no input methods).
+#[derive(Default, Debug, Clone, PartialEq)]
+#[push_macros::push_state(builder)]
+pub struct MiniState {
+    #[stack(ignore_doctests)]
+    pub only: Stack<i64>,
+    #[stack(exec)]
+    pub todo: Stack<PushProgram>,
+}
